@@ -16,6 +16,15 @@ pub struct SimNode {
     pub cfg: Config,
     pub store: MemStorage,
     pub sstore: SimStorage,
+    /// the durable image of the storage: what a crash leaves behind (a separate MemStorage fed
+    /// with the same operations, later for asynchronously persisted Readies)
+    pub durable: MemStorage,
+    /// every operation applied to `durable`, in order (a crash rebuilds the live store from it)
+    pub durable_ops: Vec<StoreOp>,
+    /// Readies written to the live store (advance_append_async) and not yet fsynced
+    pub unsynced: VecDeque<ReadyView>,
+    pub init_cs: (Vec<u64>, Vec<u64>),
+    pub sim_snap: bool,
     pub driver: Option<Driver>,
     /// applied index of the simulated state machine (durable together with the store)
     pub applied: u64,
@@ -25,6 +34,56 @@ pub struct SimNode {
     pub async_pending: VecDeque<(u64, Vec<Message>)>,
     /// committed entries handed out and not yet applied
     pub to_apply: VecDeque<Entry>,
+}
+
+/// A storage write of the simulated application.
+#[derive(Clone)]
+pub enum StoreOp {
+    Snapshot(Snapshot),
+    Append(Vec<Entry>),
+    HardState(u64, u64, u64),
+    Commit(u64),
+    ConfState(ConfState),
+    Compact(u64),
+}
+
+pub fn apply_op(st: &MemStorage, op: &StoreOp) {
+    let mut w = st.wl();
+    match op {
+        StoreOp::Snapshot(s) => {
+            let _ = w.apply_snapshot(s.clone());
+        }
+        StoreOp::Append(e) => {
+            let _ = catch(|| w.append(e));
+        }
+        StoreOp::HardState(t, v, c) => {
+            let hs = w.mut_hard_state();
+            hs.term = *t;
+            hs.vote = *v;
+            hs.commit = *c;
+        }
+        StoreOp::Commit(c) => {
+            w.mut_hard_state().commit = *c;
+        }
+        StoreOp::ConfState(cs) => w.set_conf_state(cs.clone()),
+        StoreOp::Compact(i) => {
+            let _ = catch(|| w.compact(*i));
+        }
+    }
+}
+
+pub fn ready_ops(rv: &ReadyView) -> Vec<StoreOp> {
+    let mut v = vec![];
+    if rv.snapshot.get_metadata().index != 0 {
+        v.push(StoreOp::Snapshot(rv.snapshot.clone()));
+    }
+    if !rv.entries.is_empty() {
+        v.push(StoreOp::Append(rv.entries.clone()));
+    }
+    if let Some((t, vv, c)) = rv.hs {
+        v.push(StoreOp::HardState(t, vv, c));
+    }
+    v
 }
 
 pub struct Recorder {
@@ -179,7 +238,9 @@ impl Sim {
             }
             let store = MemStorage::new_with_conf_state((voters.clone(), learners.clone()));
             let sstore = SimStorage::new(store.clone(), sim_snap);
-            self.nodes.push(SimNode { id: *id, cfg, store, sstore, driver: None, applied: 0, reported: 0, async_pending: VecDeque::new(), to_apply: VecDeque::new() });
+            let durable = MemStorage::new_with_conf_state((voters.clone(), learners.clone()));
+            self.nodes.push(SimNode { id: *id, cfg, store, sstore, durable, durable_ops: vec![], unsynced: VecDeque::new(),
+                init_cs: (voters.clone(), learners.clone()), sim_snap, driver: None, applied: 0, reported: 0, async_pending: VecDeque::new(), to_apply: VecDeque::new() });
         }
         for i in 0..self.nodes.len() {
             self.start(i);
@@ -356,10 +417,14 @@ impl Sim {
         let limit = if upto_all { usize::MAX } else { 1 + self.rng.below(3) as usize };
         let mut k = 0;
         while k < limit {
-            let e = match self.nodes[i].to_apply.pop_front() {
-                Some(e) => e,
-                None => break,
-            };
+            // the application applies an entry only once the commit index covering it is durable
+            // (the crate's documentation: persist the commit index with or before applying)
+            let dcommit = self.nodes[i].durable.initial_state().unwrap().hard_state.commit;
+            match self.nodes[i].to_apply.front() {
+                Some(e) if e.index <= dcommit => {}
+                _ => break,
+            }
+            let e = self.nodes[i].to_apply.pop_front().unwrap();
             k += 1;
             if self.mon.is_some() {
                 self.with_mon(|m, s| m.on_apply(s, i, &e));
@@ -378,7 +443,7 @@ impl Sim {
             if let Some(cc) = cc {
                 if let Some(o) = self.call(i, Call::ApplyConfChange(cc)) {
                     if let Some(cs) = o.conf_state {
-                        self.nodes[i].store.wl().set_conf_state(cs);
+                        self.store_op(i, StoreOp::ConfState(cs), true);
                     }
                 } else {
                     return;
@@ -402,39 +467,81 @@ impl Sim {
         }
     }
 
-    pub(crate) fn write_ready(&mut self, i: usize, rv: &ReadyView) {
+    /// Applies an operation to the live store and (always for application-level state) to the durable one.
+    fn store_op(&mut self, i: usize, op: StoreOp, durable_too: bool) {
+        apply_op(&self.nodes[i].store, &op);
+        if durable_too {
+            apply_op(&self.nodes[i].durable, &op);
+            self.nodes[i].durable_ops.push(op);
+        }
+    }
+
+    /// Writes a Ready to the live store; `sync` also makes it durable at once, otherwise it is
+    /// fsynced later (`fsync_one`) and a crash before that loses it.
+    pub(crate) fn write_ready(&mut self, i: usize, rv: &ReadyView, sync: bool) {
+        for op in ready_ops(rv) {
+            apply_op(&self.nodes[i].store, &op);
+        }
         let n = &mut self.nodes[i];
-        let mut st = n.store.wl();
         if rv.snapshot.get_metadata().index != 0 {
-            let _ = st.apply_snapshot(rv.snapshot.clone());
             n.applied = rv.snapshot.get_metadata().index;
             n.sstore.set_applied(n.applied);
             n.to_apply.clear();
         }
-        if !rv.entries.is_empty() {
-            let _ = catch(|| st.append(&rv.entries));
+        if self.mon.is_some() {
+            self.with_mon(|m, s| m.on_write(s, i, rv));
         }
-        if let Some((t, v, c)) = rv.hs {
-            let hs = st.mut_hard_state();
-            hs.term = t;
-            hs.vote = v;
-            hs.commit = c;
+        self.nodes[i].unsynced.push_back(rv.clone());
+        if sync {
+            while !self.nodes[i].unsynced.is_empty() {
+                self.fsync_one(i);
+            }
+        }
+    }
+
+    /// The oldest written Ready becomes durable.
+    pub(crate) fn fsync_one(&mut self, i: usize) {
+        let rv = match self.nodes[i].unsynced.pop_front() {
+            Some(rv) => rv,
+            None => return,
+        };
+        for op in ready_ops(&rv) {
+            apply_op(&self.nodes[i].durable, &op);
+            self.nodes[i].durable_ops.push(op);
+        }
+        let n = &self.nodes[i];
+        if let Some((t, v, _)) = rv.hs {
             self.pt.fsync(n.id, t, v);
         }
-        drop(st);
         if self.pt.enabled {
-            let first = n.store.first_index().unwrap();
-            let last = n.store.last_index().unwrap();
+            let first = n.durable.first_index().unwrap();
+            let last = n.durable.last_index().unwrap();
             let ents = if last + 1 > first {
-                n.store.entries(first, last + 1, None, raft::GetEntriesContext::empty(false)).unwrap()
+                n.durable.entries(first, last + 1, None, raft::GetEntriesContext::empty(false)).unwrap()
             } else {
                 vec![]
             };
             self.pt.durable(n.id, first, &ents);
         }
-        if self.mon.is_some() {
-            self.with_mon(|m, s| m.on_write(s, i, rv));
+    }
+
+    /// A crash: the live store is rebuilt from the durable operations; written-but-unfsynced
+    /// Readies are lost.
+    pub(crate) fn lose_unsynced(&mut self, i: usize) {
+        let n = &mut self.nodes[i];
+        let fresh = MemStorage::new_with_conf_state(n.init_cs.clone());
+        for op in &n.durable_ops {
+            apply_op(&fresh, op);
         }
+        n.store = fresh;
+        n.sstore = SimStorage::new(n.store.clone(), n.sim_snap);
+        n.unsynced.clear();
+        // the state machine cannot be ahead of what the durable log holds
+        let last = n.durable.last_index().unwrap();
+        if n.applied > last {
+            n.applied = last;
+        }
+        n.sstore.set_applied(n.applied);
     }
 
     /// One synchronous or asynchronous Ready round on node i.
@@ -455,11 +562,12 @@ impl Sim {
         };
         let rv = o.ready.unwrap();
         self.send(i, rv.messages.clone());
-        self.write_ready(i, &rv);
+        // the write is durable at once in the synchronous modes; asynchronous Readies are fsynced later
+        let mode = self.rng.below(10);
+        self.write_ready(i, &rv, mode < 7);
         for e in &rv.committed_entries {
             self.nodes[i].to_apply.push_back(e.clone());
         }
-        let mode = self.rng.below(10);
         if mode < 5 {
             // sync: handle committed entries, then advance (which reports applied itself)
             self.send(i, rv.persisted_messages.clone());
@@ -492,7 +600,7 @@ impl Sim {
     pub(crate) fn after_light(&mut self, i: usize, o: CallOutcome) {
         if let Some(l) = o.light {
             if let Some(c) = l.commit_index() {
-                self.nodes[i].store.wl().mut_hard_state().commit = c;
+                self.store_op(i, StoreOp::Commit(c), true);
             }
             self.send(i, l.messages().to_vec());
             for e in l.committed_entries() {
@@ -514,6 +622,7 @@ impl Sim {
             let (n, m) = self.nodes[i].async_pending.pop_front().unwrap();
             num = n;
             msgs.extend(m);
+            self.fsync_one(i);
         }
         if self.call(i, Call::OnPersistReady(num)).is_some() {
             self.send(i, msgs);
@@ -568,8 +677,14 @@ impl Sim {
         if n.applied > first {
             let to = first + 1 + self.rng.below(n.applied - first);
             // the snapshot point a leader would ship must be the compaction point's commit
-            let _ = catch(|| n.store.wl().compact(to));
             let id = n.id;
+            // never compact beyond what is durably committed in the durable image
+            let dc = n.durable.initial_state().unwrap().hard_state.commit;
+            if to > dc {
+                return;
+            }
+            let durable_too = to <= n.durable.last_index().unwrap() && to > n.durable.first_index().unwrap();
+            self.store_op(i, StoreOp::Compact(to), durable_too);
             self.note(|| format!("{} compact store to {}", id, to));
         }
     }
@@ -674,6 +789,7 @@ impl Sim {
                     self.pt.crash(nid);
                     self.nodes[i].async_pending.clear();
                     self.nodes[i].to_apply.clear();
+                    self.lose_unsynced(i);
                     let id = self.nodes[i].id;
                     self.note(|| format!("{} crash", id));
                     self.with_mon(|m, s| m.on_crash(s, i));
